@@ -45,6 +45,9 @@ def shapes(tier):
                 continue     # custom K + offsets: recorded finding of C01 (constructor), not repeated here
             out.append({"nt": nt, "poly": npoly, "noff": noff, "K": K, "units": "plain", "P_unit": "day", "tref": "default", "rows": 1 + (nt % 2), "n_lin": 1 + (npoly % 2)})
     out.append({"nt": 2, "poly": 2, "noff": 1, "K": "default", "units": "sym", "P_unit": "day", "tref": "default", "rows": 1, "n_lin": 1, "slots_only": True})
+    # non-default reference epochs of a single source
+    out.append({"nt": 2, "poly": 2, "noff": 0, "K": "default", "units": "plain", "P_unit": "day", "tref": "false", "rows": 1, "n_lin": 1})
+    out.append({"nt": 2, "poly": 2, "noff": 0, "K": "default", "units": "plain", "P_unit": "day", "tref": "explicit", "rows": 1, "n_lin": 1})
     return out
 
 
@@ -96,7 +99,7 @@ def _vcs(sink, path, S, shape, pb, rows, h, raw, raw_cells, samples, res):
     desc = c01.describe_factory(pb, rows, shape)
     pref = c01.prefer_nice(pb, rows)
     data = pb["data"]
-    tref = data._t_ref_bmjd
+    tref = pb.get("tref_spec", data._t_ref_bmjd)     # the prescribed epoch, not the one the code stored
     t_cells = kernel.cells1(data._t_bmjd, nt)
     y_cells = kernel.cells1(data.rv.value, nt)
     err_cells = kernel.cells1(data.rv_err.value, nt)
@@ -106,6 +109,18 @@ def _vcs(sink, path, S, shape, pb, rows, h, raw, raw_cells, samples, res):
     invs = path.ctx.notes.get("inv", [])
     ok = len(sys_calls) == 2 * nrows and len(mvn) == nrows and len(invs) == 2 * nrows and raw_cells is not None and len(raw_cells) == nrows * nlin_s
     sink.check(path, "W.call_sequence", core.SB(z3.BoolVal(bool(ok))), site="batch_get_posterior_samples", describe=desc)
+    # the trend / offset columns the draws refer to: constant, survey indicators, powers of (t - prescribed epoch) (same claim as C01-V3)
+    cl = []
+    for n in range(nt):
+        cl.append(L(tm[n, 0]) == 1)
+        for k in range(1, noff + 1):
+            cl.append(L(tm[n, k]) == (1 if kernel.survey_of(n, nt, noff) == k else 0))
+        p_ = t_cells[n] - tref
+        acc = p_
+        for q in range(1, npoly):
+            cl.append(L(tm[n, noff + q]) == L(acc))
+            acc = acc * p_
+    sink.check(path, "W3.trend_columns", core.SB(z3.And(cl)), site="design_matrix", describe=desc, prefer=pref, isolated=True)
     if not ok:
         return
     mu_code = kernel.cells1(h.mu, nl)
@@ -274,7 +289,7 @@ def replay(cand):
         return {"reproduced": True, "detail": "make_full_samples_inmem raised %s: %s" % (type(e).__name__, str(e)[:200])}
     du = rp["dunit"]
     t, y, err = rp["t"], rp["y"], rp["err"]
-    tref = rp["tref"].tcb.mjd if rp["tref"] is not None else t.min()
+    tref = 0.0 if rp["tref"] is False else (rp["tref"].tcb.mjd if rp["tref"] is not None else t.min())
     names = ["K", "v0"] + ["dv0_%d" % k for k in range(1, noff + 1)] + ["v%d" % j for j in range(1, npoly)]
     bad = []
     if len(rng.calls) != len(rows):
